@@ -34,8 +34,17 @@ impl WordLexer<'_, '_> {
             };
             let is_escapable =
                 |c| matches!(c, '$' | '`' | '\\') || c == '"' && double_quote_escapable;
-            if let Some(c) = self.consume_char_if(is_escapable).await? {
-                return Ok(Some(BackquoteUnit::Backslashed(c.value)));
+            // Line continuation must not be recognized between the backslash
+            // and the next character. Otherwise, the second backslash in
+            // `\\<newline>` would be removed as part of a line continuation
+            // rather than being escaped by the first backslash.
+            let escaped = self
+                .disable_line_continuation()
+                .consume_char_if(is_escapable)
+                .await?
+                .map(|c| c.value);
+            if let Some(c) = escaped {
+                return Ok(Some(BackquoteUnit::Backslashed(c)));
             } else {
                 return Ok(Some(BackquoteUnit::Literal('\\')));
             }
